@@ -111,6 +111,7 @@ from static_frame.core.util import IndexConstructors
 from static_frame.core.util import IndexInitializer
 from static_frame.core.util import IndexSpecifier
 from static_frame.core.util import INT_TYPES
+from static_frame.core.util import immutable_filter
 from static_frame.core.util import is_callable_or_mapping
 from static_frame.core.util import is_dtype_specifier
 from static_frame.core.util import is_mapping
@@ -1293,7 +1294,7 @@ class Frame(ContainerOperand):
         '''
         # from a structured array, we assume we want to get the columns labels
         data, index_arrays, columns_labels = cls._structured_array_to_d_ia_cl(
-                array=array,
+                array=immutable_filter(array), # fields are extracted as views: do not alias a writeable caller array
                 index_depth=index_depth,
                 index_column_first=index_column_first,
                 dtypes=dtypes,
